@@ -76,6 +76,8 @@ def plan(seed, subbatch):
     if subbatch == "faulty" and cfg.random() < 0.3:
         # filling interacting with eviction: the expected series is the window of the filled reference
         lifespan = tf_s * cfg.randint(2, 30)
+        if sub_rng(seed, "life-frac").random() < 0.4:
+            lifespan += sub_rng(seed, "life-frac-k").randint(1, max(1, tf_s - 1))    # not a whole number of buckets
         fired["lifespan_configured"] += 1
         if route == "hexital_member":
             route = "hexital_level"   # member managers derived from trimmed base candles: known finding C08
